@@ -21,6 +21,11 @@ func init() {
 		&Rule{ID: "PG-LADDER", Doc: "the grammar's expression ladder (operators per level, associativity) equals GRAMMAR.md and the specified precedence", Run: rulePGLadder, Min: 8},
 		&Rule{ID: "PG-LEXER", Doc: "the lexer rules and parser options are the specified ones (token classes, their order, quoting, lookahead)", Run: rulePGLexer, Min: 20},
 		&Rule{ID: "PG-POLICY", Doc: "'allow if' yields an allow policy with the allow queries, 'deny if' a deny policy with the deny queries, in both parser entry points", Run: rulePGPolicy, Min: 4},
+		&Rule{ID: "PG-FRESHEXPR", Doc: "every parsed expression is converted into its own freshly allocated op list (no scratch buffer shared between expressions)", Run: rulePGFreshExpr, Min: 2},
+		&Rule{ID: "PG-PURE", Doc: "no parse function writes the shared parser object (a parser value can be used from several goroutines and carries no state from one parse to the next)", Run: rulePGPure, Min: 6},
+		&Rule{ID: "PG-PARSE", Doc: "every parse method converts the syntax tree parsed from its own text parameter in that very call (no tree from a cache or memo)", Run: rulePGParse, Min: 12},
+		&Rule{ID: "PR-DATE", Doc: "dates print as RFC 3339 text of time.Unix(seconds, 0) with no intermediate arithmetic on the seconds (the parser reads RFC 3339 back into Unix seconds)", Run: rulePRDate, Min: 3},
+		&Rule{ID: "PR-SEP", Doc: "the printer separates predicates and expressions with ', ' exactly when both are present", Run: rulePRSep, Min: 2},
 		&Rule{ID: "PG-EMIT", Doc: "operands are emitted before their operator (postfix), left before right (left-assoc)", Run: rulePGEmit, Min: 12},
 		&Rule{ID: "PG-OPMAP", Doc: "every operator token of the grammar maps to a defined, non-nil expression op: literal -> operatorMap -> Operator.ToExpr -> biscuit op", Run: rulePGOpMap, Min: 19},
 		&Rule{ID: "PG-ERR", Doc: "no error returned inside package parser is discarded", Run: rulePGErr, Min: 10},
@@ -765,6 +770,44 @@ func rulePRParens(p *Prog, r *Reporter) {
 			}
 		}
 		r.Check(okG && okAfter, p.instrPos(cv), name, "UnaryParens emission", "emitted exactly after a parenthesised sub-expression", "UnaryParens is emitted on a path that is not 'parenthesised sub-expression just emitted'")
+		// ... and on every such path: no other condition decides whether the marker is emitted
+		extra := ""
+		for _, g := range guardsOf(cv.Block()) {
+			bo, isB := g.cond.(*ssa.BinOp)
+			if isB && (isNilConst(bo.Y) || isNilConst(bo.X)) {
+				x := bo.X
+				if isNilConst(bo.X) {
+					x = bo.Y
+				}
+				d := p.D(x)
+				if d == recv+".Expression" || d == recv+".Term" || isErrorType(x.Type()) {
+					continue
+				}
+			}
+			extra = shortD(g.cond)
+		}
+		// disjunctive conditions do not show up as dominating guards: the emission must also be on
+		// every way from "sub-expression converted" to a successful return
+		for _, c2 := range callsIn(fn) {
+			c2v, isV := c2.(*ssa.Call)
+			if f := c2.Common().StaticCallee(); !isV || f == nil || f.Name() != "ToExpr" || p.D(c2.Common().Args[0]) != recv+".Expression" {
+				continue
+			}
+			for _, nb := range nilTests(c2v) {
+				if nb.isNil == nil || nb.isNil == cv.Block() {
+					continue
+				}
+				for _, ret := range returnsOf(fn) {
+					if isErrorReturn(ret) {
+						continue
+					}
+					if reachAvoiding(nb.isNil, ret.Block(), blockSet{cv.Block(): true}) {
+						extra = "a condition evaluated after the conversion (a way to the successful return bypasses the emission)"
+					}
+				}
+			}
+		}
+		r.Check(extra == "", p.instrPos(cv), name, "UnaryParens unconditional", "every parenthesised sub-expression gets its marker", "whether the parentheses marker is emitted also depends on "+extra+": some parsed parentheses are dropped")
 	}
 	r.Check(nParens == 1, p.Pos(fn.Pos()), name, "UnaryParens sites", "one emission site", fmt.Sprintf("%d UnaryParens emission sites: parentheses are not preserved (or invented)", nParens))
 	// no other ToExpr emits UnaryParens
@@ -976,5 +1019,440 @@ func rulePGPolicy(p *Prog, r *Reporter) {
 		// the queries come from the same alternative: built by ranging over a phi of Allow.Queries / Deny.Queries
 		okQ := queries != nil && dependsOn(queries, func(x ssa.Value) bool { return strings.HasSuffix(p.D(x), ".Allow.Queries") }) && dependsOn(queries, func(x ssa.Value) bool { return strings.HasSuffix(p.D(x), ".Deny.Queries") })
 		r.Check(okQ, p.Pos(fn.Pos()), name, "policy queries", "queries converted from the parsed alternative's query list", "the policy's queries are not taken from the Allow/Deny query lists")
+	}
+}
+
+func rulePGFreshExpr(p *Prog, r *Reporter) {
+	globalP = p
+	for _, fn := range p.funcsIn("parser") {
+		if fn.Parent() != nil {
+			continue
+		}
+		loops := naturalLoops(fn)
+		for _, c := range callsIn(fn) {
+			f := c.Common().StaticCallee()
+			if f == nil || f.Name() != "ToExpr" || len(c.Common().Args) < 2 {
+				continue
+			}
+			// only the top-level conversions (the callers that own the destination variable)
+			if fn.Name() == "ToExpr" {
+				continue // recursive conversion into the caller's destination
+			}
+			dst, isAlloc := c.Common().Args[1].(*ssa.Alloc)
+			if !isAlloc {
+				r.Dunno(p.instrPos(c), p.FuncName(fn), "expression destination", "the destination "+shortD(c.Common().Args[1])+" is not a local variable; its freshness is not decided")
+				continue
+			}
+			var in *loop
+			for _, l := range loops {
+				if l.body[c.Block()] && (in == nil || len(l.body) < len(in.body)) {
+					in = l
+				}
+			}
+			if in == nil {
+				r.OK(p.instrPos(c), p.FuncName(fn), "expression destination", "single conversion outside any loop")
+				continue
+			}
+			fresh := in.body[dst.Block()]
+			if !fresh {
+				// declared outside but reset to nil before each conversion: append then allocates a new array
+				for _, st := range storesInto(dst) {
+					if k, isK := st.Val.(*ssa.Const); isK && k.IsNil() && st.Addr == ssa.Value(dst) && in.body[st.Block()] && instrDominates(st, c) {
+						fresh = true
+					}
+				}
+			}
+			r.Check(fresh, p.instrPos(c), p.FuncName(fn), "expression destination", "the destination op list is a new variable in every iteration", "the op list that receives the converted expression is declared outside the loop and reused: expressions converted earlier share its backing array and are overwritten by later ones")
+		}
+	}
+}
+
+func rulePRSep(p *Prog, r *Reporter) {
+	globalP = p
+	dbg := p.NamedType("datalog", "SymbolDebugger")
+	if dbg == nil {
+		r.Dunno("?", "datalog.SymbolDebugger", "printer", "not found")
+		return
+	}
+	for _, m := range []string{"Rule", "CheckQuery"} {
+		fn := p.method(dbg, m)
+		if fn == nil {
+			r.Dunno("?", "datalog.SymbolDebugger."+m, "printer", "not found")
+			continue
+		}
+		name := p.FuncName(fn)
+		// the final Sprintf: ..., Join(preds, ", "), sep, Join(expressions, ", ")
+		var sp *ssa.Call
+		for _, c := range callsIn(fn) {
+			if cv, ok := c.(*ssa.Call); ok && isCallTo(&cv.Call, "fmt.Sprintf") {
+				for _, ret := range returnsOf(fn) {
+					if retVal(ret, 0) == ssa.Value(cv) {
+						sp = cv
+					}
+				}
+			}
+		}
+		if sp == nil {
+			r.Bad(p.Pos(fn.Pos()), name, "format", "the printed text is not the result of a single Sprintf")
+			continue
+		}
+		format, _ := constString(sp.Call.Args[0])
+		wantFmt := map[string]string{"Rule": "%s <- %s%s%s", "CheckQuery": "%s%s%s"}[m]
+		// argument list
+		var args []ssa.Value
+		if sl, ok := sp.Call.Args[1].(*ssa.Slice); ok {
+			if a, isA := sl.X.(*ssa.Alloc); isA {
+				byIdx := map[int64]ssa.Value{}
+				for _, st := range storesInto(a) {
+					if ia, isIA := st.Addr.(*ssa.IndexAddr); isIA {
+						if k, isC := constInt(ia.Index); isC {
+							byIdx[k] = st.Val
+						}
+					}
+				}
+				for k := int64(0); k < int64(len(byIdx)); k++ {
+					args = append(args, byIdx[k])
+				}
+			}
+		}
+		// idiom B: one join over the concatenation of both lists
+		if altFmt := strings.TrimSuffix(wantFmt, "%s%s"); format == altFmt && len(args) >= 1 {
+			okB := false
+			if j, isJ := unwrap(args[len(args)-1]).(*ssa.Call); isJ && isCallTo(&j.Call, "strings.Join") {
+				if sepB, _ := constString(j.Call.Args[1]); sepB == ", " {
+					if ap, isAp := j.Call.Args[0].(*ssa.Call); isAp {
+						if b, isB := ap.Call.Value.(*ssa.Builtin); isB && b.Name() == "append" && len(ap.Call.Args) == 2 && ap.Call.Args[0] != ap.Call.Args[1] {
+							_, m0 := ap.Call.Args[0].(*ssa.MakeSlice)
+							_, m1 := ap.Call.Args[1].(*ssa.MakeSlice)
+							okB = m0 && m1
+						}
+					}
+				}
+			}
+			r.Check(okB, p.instrPos(sp), name, "format", "one ', ' join over predicates followed by expressions", "the query text is not a ', ' join of the predicates followed by the expressions")
+			if okB {
+				r.OK(p.instrPos(sp), name, "separator", "a single join puts ', ' between elements only")
+			}
+			continue
+		}
+		okShape := format == wantFmt && len(args) >= 3
+		var sep ssa.Value
+		if okShape {
+			n := len(args)
+			j1, j2 := unwrap(args[n-3]), unwrap(args[n-1])
+			sep = unwrap(args[n-2])
+			c1, ok1 := j1.(*ssa.Call)
+			c2, ok2 := j2.(*ssa.Call)
+			okShape = ok1 && ok2 && isCallTo(&c1.Call, "strings.Join") && isCallTo(&c2.Call, "strings.Join")
+			if okShape {
+				s1, _ := constString(c1.Call.Args[1])
+				s2, _ := constString(c2.Call.Args[1])
+				okShape = s1 == ", " && s2 == ", "
+			}
+		}
+		r.Check(okShape, p.instrPos(sp), name, "format", "predicates joined by ', ', then the separator, then expressions joined by ', '", "the query text is not 'predicates, separator, expressions' with ', ' joins")
+		if !okShape {
+			continue
+		}
+		// separator: "" unless both lists are non-empty
+		okSep := false
+		if ph, isPhi := sep.(*ssa.Phi); isPhi {
+			okSep = true
+			nComma := 0
+			for _, lf := range phiLeaves(ph) {
+				str, isS := constString(lf.val)
+				if !isS {
+					okSep = false
+					continue
+				}
+				if str == "" {
+					continue
+				}
+				if str != ", " {
+					okSep = false
+					continue
+				}
+				nComma++
+				both := 0
+				for _, g := range guardsOnEdge(lf.pred, lf.blk) {
+					bo, ok := g.cond.(*ssa.BinOp)
+					if !ok || !strings.HasPrefix(p.D(bo.X), "len(") {
+						continue
+					}
+					k, isC := constInt(bo.Y)
+					if isC && k == 0 && ((bo.Op == token.GTR && g.val) || (bo.Op == token.NEQ && g.val) || (bo.Op == token.EQL && !g.val)) {
+						both++
+					}
+				}
+				if both < 2 {
+					okSep = false
+				}
+			}
+			if nComma == 0 {
+				okSep = false
+			}
+		}
+		r.Check(okSep, p.instrPos(sp), name, "separator", "', ' only when there is at least one predicate and at least one expression", "the separator between predicates and expressions is not conditional on both being present: a query made only of expressions prints with a leading ', ' and does not parse back")
+	}
+}
+
+func rulePRDate(p *Prog, r *Reporter) {
+	globalP = p
+	const rfc3339 = "2006-01-02T15:04:05Z07:00"
+	dt := p.NamedType("datalog", "Date")
+	var fn *ssa.Function
+	if dt != nil {
+		fn = p.method(dt, "String")
+	}
+	if fn == nil {
+		r.Dunno("?", "datalog.Date.String", "printer", "not found")
+		return
+	}
+	name := p.FuncName(fn)
+	recv := fn.Params[0]
+	// spilled receivers: loads of the receiver slot count as the receiver
+	isRecv := func(v ssa.Value) bool { return v == ssa.Value(recv) || p.D(v) == recv.Name() }
+	// (c) no arithmetic on the seconds anywhere on the way (own helpers of Date included)
+	fns := []*ssa.Function{fn}
+	for _, c := range callsIn(fn) {
+		if f := c.Common().StaticCallee(); f != nil && p.isRepoFunc(f) && f.Signature.Recv() != nil && types.Identical(f.Signature.Recv().Type(), dt) {
+			fns = append(fns, f)
+		}
+	}
+	arith := ""
+	var unix *ssa.Call
+	var format *ssa.Call
+	for _, f := range fns {
+		for _, b := range f.Blocks {
+			for _, in := range b.Instrs {
+				switch x := in.(type) {
+				case *ssa.BinOp:
+					switch x.Op {
+					case token.MUL, token.ADD, token.SUB, token.QUO, token.SHL:
+						if dependsOn(x, func(v ssa.Value) bool { pr, ok := v.(*ssa.Parameter); return ok && types.Identical(pr.Type(), dt) }) {
+							arith = p.instrPos(x) + " " + shortD(x)
+						}
+					}
+				case *ssa.Call:
+					if isCallTo(&x.Call, "time.Unix") && f == fn {
+						unix = x
+					}
+					if isCallTo(&x.Call, "time.Time.Format") && f == fn {
+						format = x
+					}
+				}
+			}
+		}
+	}
+	r.Check(arith == "", p.Pos(fn.Pos()), name, "no arithmetic on the seconds", "the stored seconds are used as they are", "the seconds of a date are scaled or shifted with machine arithmetic ("+arith+") before printing: large dates wrap (time.Duration holds only about 292 years of nanoseconds) and print as a different instant than the one that is evaluated")
+	okUnix := false
+	if unix != nil {
+		sec := unix.Call.Args[0]
+		if cv, isCv := sec.(*ssa.Convert); isCv {
+			sec = cv.X
+		}
+		k, isK := constInt(unix.Call.Args[1])
+		okUnix = isRecv(sec) && isK && k == 0
+	}
+	r.Check(okUnix, p.Pos(fn.Pos()), name, "time.Unix(seconds, 0)", "the instant is time.Unix(seconds of the date, 0)", "the printed instant is not time.Unix(seconds of the date, 0)")
+	okFmt := false
+	if format != nil && unix != nil {
+		lay, _ := constString(format.Call.Args[1])
+		// receiver of Format: the Unix value through UTC()/In() only
+		v := format.Call.Args[0]
+		for {
+			if c, ok := v.(*ssa.Call); ok && (isCallTo(&c.Call, "time.Time.UTC") || isCallTo(&c.Call, "time.Time.In")) {
+				v = c.Call.Args[0]
+				continue
+			}
+			break
+		}
+		viaUTC := format.Call.Args[0] != ssa.Value(unix)
+		okFmt = lay == rfc3339 && v == ssa.Value(unix) && viaUTC
+		for _, ret := range returnsOf(fn) {
+			if retVal(ret, 0) != ssa.Value(format) {
+				okFmt = false
+			}
+		}
+	}
+	r.Check(okFmt, p.Pos(fn.Pos()), name, "RFC 3339 in UTC", "printed with the layout the parser reads, in UTC", "the date is not printed as the RFC 3339 text (UTC) of that instant")
+	// parser side: RFC 3339 in, Unix seconds out
+	nParse := 0
+	for _, f := range p.funcsIn("parser") {
+		for _, c := range callsIn(f) {
+			if !isCallTo(c.Common(), "time.Parse") {
+				continue
+			}
+			nParse++
+			lay, _ := constString(c.Common().Args[0])
+			r.Check(lay == rfc3339, p.instrPos(c), p.FuncName(f), "time.Parse layout", "RFC 3339", "date literals are parsed with layout "+lay+", not the one they are printed with")
+		}
+	}
+	if nParse == 0 {
+		r.Bad("?", "parser", "time.Parse", "no date parsing found in the parser")
+	}
+}
+
+func rulePGPure(p *Prog, r *Reporter) {
+	globalP = p
+	pt := p.NamedType("parser", "parser")
+	if pt == nil {
+		r.Dunno("?", "parser.parser", "type", "not found")
+		return
+	}
+	// no function of the package writes through a *parser it was given
+	nFn := 0
+	for _, fn := range p.funcsIn("parser") {
+		if fn.Name() == "New" {
+			continue
+		}
+		for _, prm := range fn.Params {
+			if !types.Identical(deref(prm.Type()), pt) {
+				continue
+			}
+			nFn++
+			r.OK(p.Pos(fn.Pos()), p.FuncName(fn), "uses the parser object", "inspected for writes")
+			for _, b := range fn.Blocks {
+				for _, in := range b.Instrs {
+					var addr ssa.Value
+					switch x := in.(type) {
+					case *ssa.Store:
+						addr = x.Addr
+					default:
+						continue
+					}
+					root := addr
+					for {
+						switch x := root.(type) {
+						case *ssa.FieldAddr:
+							root = x.X
+							continue
+						case *ssa.IndexAddr:
+							root = x.X
+							continue
+						}
+						break
+					}
+					if root == ssa.Value(prm) {
+						r.Bad(p.instrPos(in), p.FuncName(fn), "write to parser state", "a parse function writes the shared parser object ("+shortD(addr)+"): a parser used from several goroutines races, and state survives between parses")
+					}
+				}
+			}
+		}
+	}
+}
+
+func rulePGParse(p *Prog, r *Reporter) {
+	globalP = p
+	pt := p.NamedType("parser", "parser")
+	if pt == nil {
+		r.Dunno("?", "parser.parser", "type", "not found")
+		return
+	}
+	isParseString := func(c *ssa.Call) bool {
+		f := c.Call.StaticCallee()
+		return f != nil && strings.HasSuffix(calleeName(f), "Parser.ParseString")
+	}
+	directParses := func(fn *ssa.Function) []*ssa.Call {
+		var out []*ssa.Call
+		for _, c := range callsIn(fn) {
+			if cv, ok := c.(*ssa.Call); ok && isParseString(cv) {
+				out = append(out, cv)
+			}
+		}
+		return out
+	}
+	// the syntax tree used is the one parsed from this call's text
+	checkedHelper := map[*ssa.Function]bool{}
+	n := 0
+	for _, fn := range p.funcsIn("parser") {
+		recvV := fn.Signature.Recv()
+		if recvV == nil || !types.Identical(deref(recvV.Type()), pt) || fn.Parent() != nil {
+			continue
+		}
+		name := p.FuncName(fn)
+		var parse *ssa.Call
+		var input ssa.Value
+		nParse := 0
+		for _, cv := range directParses(fn) {
+			parse, nParse = cv, nParse+1
+			if len(cv.Call.Args) >= 3 {
+				input = cv.Call.Args[2]
+			}
+		}
+		if nParse == 0 {
+			// through a helper of the package that parses its own text parameter
+			for _, c := range callsIn(fn) {
+				cv, ok := c.(*ssa.Call)
+				if !ok {
+					continue
+				}
+				h := cv.Call.StaticCallee()
+				if h == nil || p.pkgShort(h) != "parser" {
+					continue
+				}
+				dp := directParses(h)
+				if len(dp) == 0 {
+					continue
+				}
+				parse, nParse = cv, nParse+1
+				// which argument is the text
+				hin, isP := dp[0].Call.Args[2].(*ssa.Parameter)
+				okH := len(dp) == 1 && isP
+				if okH {
+					for i, hp := range h.Params {
+						if hp == hin && i < len(cv.Call.Args) {
+							input = cv.Call.Args[i]
+						}
+					}
+				}
+				if !checkedHelper[h] {
+					checkedHelper[h] = true
+					r.Check(okH, p.instrPos(dp[0]), p.FuncName(h), "parses its input", "one ParseString call on the helper's text parameter, unmodified", "the parse helper does not hand exactly its text parameter to the grammar")
+					for _, ret := range returnsOf(h) {
+						if isErrorReturn(ret) {
+							continue
+						}
+						e, isE := retVal(ret, 0).(*ssa.Extract)
+						r.Check(isE && e.Tuple == ssa.Value(dp[0]) && e.Index == 0, p.instrPos(ret), p.FuncName(h), "tree provenance", "returns the tree parsed in this call", "the parse helper can return a syntax tree that was not parsed from this call's text ("+shortD(retVal(ret, 0))+"): cached / memoised trees make the result depend on earlier inputs")
+					}
+				}
+			}
+		}
+		if nParse == 0 {
+			continue // Must() and helpers
+		}
+		n++
+		pos := p.instrPos(parse)
+		okIn := nParse == 1 && input != nil
+		if okIn {
+			in, isP := input.(*ssa.Parameter)
+			okIn = isP && in.Parent() == fn
+		}
+		r.Check(okIn, pos, name, "parses its input", "one parse of the text parameter, unmodified", "the text handed to the grammar is not exactly this call's text parameter (normalised, cached or replaced)")
+		if nParse != 1 {
+			continue
+		}
+		var tree types.Type
+		if tup, ok := parse.Type().(*types.Tuple); ok && tup.Len() > 0 {
+			tree = tup.At(0).Type()
+		}
+		other := ""
+		for _, b := range fn.Blocks {
+			for _, in := range b.Instrs {
+				v, ok := in.(ssa.Value)
+				if !ok || tree == nil || !types.Identical(v.Type(), tree) {
+					continue
+				}
+				if e, isE := v.(*ssa.Extract); isE && e.Tuple == ssa.Value(parse) {
+					continue
+				}
+				other = p.instrPos(in) + " " + shortD(v)
+			}
+		}
+		r.Check(other == "", pos, name, "tree provenance", "the syntax tree converted is the result of this call's parse", "a syntax tree from another source ("+other+") can be converted instead of the one parsed from this call's text (cache, memo): the result does not correspond to the input")
+	}
+	if n < 6 {
+		r.Bad("?", "parser.parser", "parse methods", fmt.Sprintf("only %d parse methods found (six entry points expected)", n))
 	}
 }
